@@ -20,6 +20,21 @@ U = ["a", "b", "launch", "guisetup.noop"]
 VM_ID = "vm1-id"
 IMAGE = "image1"
 POOLS = ["shared", "m1", "m2", "own"]
+# remote sources: two hosts of one cluster behind ONE gateway address, told apart by the forwarded port only (as in nets.cfg)
+REMOTE = {"r1": ("netR1", "cluster1.net.lan", "221"), "r2": ("netR2", "cluster1.net.lan", "222")}
+
+
+def _prefix(pool):
+    """where the files of a pool live below the scratch root"""
+    if pool in REMOTE:
+        _, host, port = REMOTE[pool]
+        return f"ep/{host}_{port}/pools/{pool}"
+    return pool
+
+
+def _loc(root, pool):
+    """the location string as it stands in <op>_location"""
+    return f"{REMOTE[pool][0]}:/pools/{pool}" if pool in REMOTE else ":" + os.path.join(root, pool)
 _impl = {}
 
 
@@ -70,7 +85,54 @@ def _classes(poolmod=None):
                 if os.path.exists(path):
                     os.unlink(path)
 
-    _impl.update(State=FileCache, Params=Params, pool=poolmod, files=files)
+    import hashlib
+
+    class FakeSession:
+        """a shell on the endpoint (address, port): its file system is <scratch root>/ep/<address>_<port>"""
+        def __init__(self, client, host, port, *a, **k):
+            self.key = f"{host}_{port}"
+
+        def _p(self, path):
+            return os.path.join(_impl["root"], "ep", self.key, path.strip("'\"").lstrip("/"))
+
+        def cmd_status_output(self, cmd, *a, **k):
+            if cmd.startswith("ls "):
+                d = self._p(cmd[3:].strip())
+                return (0, "\n".join(sorted(os.listdir(d)))) if os.path.isdir(d) else (2, "No such file or directory")
+            if cmd.startswith("head -c"):
+                path = cmd.split("|")[0].split(None, 3)[3].strip()
+                data = open(self._p(path), "rb").read(1048576) if os.path.isfile(self._p(path)) else b""
+                return 0, hashlib.md5(data).hexdigest() + "  -"
+            return 1, "unsupported: " + cmd
+
+        def cmd(self, cmd, *a, **k):
+            if cmd.startswith("rm "):
+                os.unlink(self._p(cmd[3:].strip()))
+                return ""
+            return self.cmd_status_output(cmd)[1]
+
+        def cmd_output(self, cmd, *a, **k):
+            return self.cmd_status_output(cmd)[1]
+
+        def close(self):
+            pass
+
+    def _endpoint(host, port):
+        return os.path.join(_impl["root"], "ep", f"{host}_{port}")
+
+    def copy_files_from(host, client, user, pw, port, remote_path, local_path, *a, **k):
+        os.makedirs(os.path.dirname(local_path), exist_ok=True)
+        shutil.copy(os.path.join(_endpoint(host, port), remote_path.lstrip("/")), local_path)
+
+    def copy_files_to(host, client, user, pw, port, local_path, remote_path, *a, **k):
+        dst = os.path.join(_endpoint(host, port), remote_path.lstrip("/"))
+        os.makedirs(os.path.dirname(dst), exist_ok=True)
+        shutil.copy(local_path, dst)
+
+    poolmod.remote.remote_login = lambda *a, **k: FakeSession(*a, **k)
+    poolmod.remote.copy_files_from = copy_files_from
+    poolmod.remote.copy_files_to = copy_files_to
+    _impl.update(State=FileCache, Params=Params, pool=poolmod, files=files, root=None)
     return _impl
 
 
@@ -86,26 +148,32 @@ def gen_seq(rng):
     ext = ".qcow2" if is_image else ".state"
     sub = f"{VM_ID}/{IMAGE}" if is_image else VM_ID
     init = {}
-    for pool in POOLS:
+    use_remote = rng.random() < 0.4
+    for pool in POOLS + (list(REMOTE) if use_remote else []):
+        pre = _prefix(pool)
         for s in U:
             r = rng.random()
             if r < 0.35:
                 content = rng.choice(["x", "y"])
-                init[f"{pool}/{sub}/{s}{ext}"] = content
+                init[f"{pre}/{sub}/{s}{ext}"] = content
                 if not is_image:
-                    init[f"{pool}/{VM_ID}/{IMAGE}/{s}.qcow2"] = content
-                if rng.random() < 0.3:
-                    init[f"{pool}/{sub}/{s}{ext}.lock"] = ""
-            elif r < 0.5 and pool != "own":
-                init[f"{pool}/{sub}/{s}{ext}.lock"] = ""          # a lock file without its state (left by a removal)
-        if rng.random() < 0.15:
-            init[f"{pool}/{sub}/notes.txt"] = "junk"
+                    init[f"{pre}/{VM_ID}/{IMAGE}/{s}.qcow2"] = content
+                if rng.random() < 0.3 and pool not in REMOTE:
+                    init[f"{pre}/{sub}/{s}{ext}.lock"] = ""
+            elif r < 0.5 and pool != "own" and pool not in REMOTE:
+                init[f"{pre}/{sub}/{s}{ext}.lock"] = ""          # a lock file without its state (left by a removal)
+        if rng.random() < 0.15 or pool in REMOTE:
+            init[f"{pre}/{sub}/notes.txt"] = "junk"              # (also makes sure the remote directory exists)
     ops = []
     for _ in range(rng.randint(1, 8)):
         op = rng.choice(["show", "show", "get", "set", "set", "unset"])
         scopes = rng.choice([["own", "shared"], ["own", "shared"], ["shared"], ["own"], ["own", "swarm", "cluster", "shared"],
-                             ["swarm", "shared"], ["own", "swarm"]])
-        locs = rng.sample(["shared", "m1", "m2", "own"], rng.randint(1, 3))
+                             ["swarm", "shared"], ["own", "swarm"]] + ([["own", "cluster"], ["cluster", "shared"],
+                                                                       ["own", "swarm", "cluster", "shared"]] if use_remote else []))
+        locs = rng.sample(["shared", "m1", "m2", "own"] + (list(REMOTE) * 2 if use_remote else []), rng.randint(1, 3))
+        locs = list(dict.fromkeys(locs))
+        if op in ("set", "unset") and any(p in REMOTE for p in locs) and not is_image:
+            locs = [p for p in locs if p not in REMOTE] or ["shared"]     # (vm states are not uploaded to remote mirrors here)
         ops.append({"op": op, "state": rng.choice(U), "scopes": scopes, "locs": locs})
     return {"kind": "e2e", "is_image": is_image, "init": init, "ops": ops}
 
@@ -121,6 +189,7 @@ def _snapshot(root):
 
 
 def _state_files(pool, is_image, state):
+    pool = _prefix(pool) if pool else pool
     if is_image:
         return [f"{pool}/{VM_ID}/{IMAGE}/{state}.qcow2"]
     return [f"{pool}/{VM_ID}/{IMAGE}/{state}.qcow2", f"{pool}/{VM_ID}/{state}.state"]
@@ -130,6 +199,8 @@ def run_seq(spec, poolmod=None):
     """execute one sequence on the real stack; returns the records (one per call)"""
     im = _classes(poolmod)
     root = tempfile.mkdtemp(prefix="i2n-c13e2e-")
+    im["root"] = root
+    im["pool"].TransferOps._session_cache = {}
     recs = []
     try:
         for rel, content in spec["init"].items():
@@ -143,22 +214,32 @@ def run_seq(spec, poolmod=None):
         for i, o in enumerate(spec["ops"]):
             im["State"].epoch[0] = i + 1
             op, state = o["op"], o["state"]
-            locs = [":" + os.path.join(root, p) for p in o["locs"]]
+            locs = [_loc(root, p) for p in o["locs"]]
             d = {"nets": "net1", "vms": "vm1", "images": IMAGE, "object_id": VM_ID,
                  "object_type": "nets/vms/images" if is_image else "nets/vms",
                  "swarm_pool": os.path.join(root, "own"), "shared_pool": os.path.join(root, "shared"),
                  "nets_gateway": "", "nets_host": "", "pool_scope": " ".join(o["scopes"]), "update_pool_timeout": "5",
+                 "nets_shell_client": "ssh", "nets_shell_host": "localhost", "nets_shell_port": "22", "nets_username": "root",
+                 "nets_password": "x", "nets_shell_prompt": "#", "nets_file_transfer_client": "scp",
+                 "nets_file_transfer_port": "22",
                  f"{op}_state": state, f"{op}_location": " ".join(locs)}
+            for net, host, port in REMOTE.values():
+                d.update({f"nets_gateway_{net}": host, f"nets_host_{net}": "h" + port, f"nets_shell_host_{net}": host,
+                          f"nets_shell_port_{net}": port, f"nets_file_transfer_port_{net}": port})
             params = im["Params"](d)
             before = _snapshot(root)
             cache = sorted(f[:-len(ext)] for f in os.listdir(os.path.join(root, "own", sub)) if f.endswith(ext)) \
                 if os.path.isdir(os.path.join(root, "own", sub)) else []
             listings, valids = {}, {}
             for p in o["locs"]:
-                dd = os.path.join(root, p, sub)
+                dd = os.path.join(root, _prefix(p), sub)
                 listings[p] = sorted(os.listdir(dd)) if os.path.isdir(dd) else []
-                valids[p] = all(before.get(c, "") == before.get(q, "")
-                                for c, q in zip(_state_files("own", is_image, state), _state_files(p, is_image, state)))
+                if p in REMOTE:      # compare_remote: "" for a missing cache file against the md5 of what `head` prints
+                    valids[p] = all(c in before and before.get(c) == before.get(q, "") for c, q in
+                                    zip(_state_files("own", is_image, state), _state_files(p, is_image, state)))
+                else:
+                    valids[p] = all(before.get(c, "") == before.get(q, "") for c, q in
+                                    zip(_state_files("own", is_image, state), _state_files(p, is_image, state)))
             try:
                 r = getattr(im["State"], op)(params, None)
                 res = "ok:" + ",".join(sorted(set(r))) if op == "show" else "ok"
@@ -179,9 +260,10 @@ def run_seq(spec, poolmod=None):
 def line(spec, rec):
     o = rec["op"]
     root = rec["root"]
-    P = lambda p: ":" + os.path.join(root, p)     # noqa
+    P = lambda p: _loc(root, p)     # noqa
+    nets = ";".join(f"{net}={host},h{port}" for net, host, port in REMOTE.values())
     return "|".join(["e2e", "1" if spec["is_image"] else "0", o["op"], " ".join(o["scopes"]),
-                     ",".join(["", "", os.path.join(root, "own"), os.path.join(root, "shared")]),
+                     ",".join(["", "", os.path.join(root, "own"), os.path.join(root, "shared")]), nets,
                      " ".join(P(p) for p in o["locs"]), " ".join(rec["cache"]),
                      ";".join(f"{P(p)}={','.join(v)}" for p, v in rec["listings"].items()),
                      ";".join(f"{P(p)}={1 if v else 0}" for p, v in rec["valids"].items()), o["state"]])
@@ -196,6 +278,8 @@ def judge(ctx, spec, recs, answers):
         rep = dict(spec, ops=spec["ops"][:rec["i"] + 1])
         want_res, _, want_contacts = ans.partition(" # ")
         contacts = [c.replace(":" + root + "/", "") for c in want_contacts.split()]
+        for pool, (net, _h, _p) in REMOTE.items():
+            contacts = [c.replace(f"{net}:/pools/{pool}", pool) for c in contacts]
         ctx.count(f"e2e.{op}.{'image' if is_image else 'vm'}")
         if rec["res"].startswith("exc:"):
             ctx.count("e2e.outside-protocol." + rec["res"][4:])
@@ -204,14 +288,14 @@ def judge(ctx, spec, recs, answers):
         if rec["res"] != want_res:
             ctx.disagree(f"e2e#{rec['i']}:{op}", rep, want_res, rec["res"])
         before, after = rec["before"], rec["after"]
-        permitted = [p for p in o["locs"] if p != "own" and "shared" in o["scopes"]]
+        permitted = [p for p in o["locs"] if (p in REMOTE and "cluster" in o["scopes"]) or
+                     (p not in REMOTE and p != "own" and "shared" in o["scopes"])]
         if op == "show" and rec["res"].startswith("ok:"):
             for x in (rec["res"][3:].split(",") if rec["res"] != "ok:" else []):
                 if x not in U:
                     continue
                 where = (["own"] if "own" in o["scopes"] else []) + permitted
-                f = _state_files("", is_image, x)[-1]
-                if not any((w + f) in before for w in where):
+                if not any(_state_files(w, is_image, x)[-1] in before for w in where):
                     ctx.violate("e2e:state-reported-present-but-in-no-permitted-source",
                                 f"call #{rec['i']} show reports `{x}` although its state file is neither in the cache nor in a "
                                 f"permitted source ({where}); directory listings: {rec['listings']}", rep)
